@@ -100,6 +100,15 @@ def ident(v):
 '''
 
 
+# locals / parameters whose names ALSO exist at module level of the host file (a parameter `path` next to
+# `from os import path`, a local `count` next to a module-level `count`): at the paused line the local wins.  Drawn by
+# the expression generators of C10, C16 and C17.
+SHADOW_GLOBALS = {'count': 1000, 'path': 'module-path', 'limit': 99.5}
+SHADOW_LOCALS = [['count', 3], ['path', '/local/p'], ['limit', 2.5]]
+SHADOW_VALUE_EXPRS = ['count', 'count + 1', 'limit', 'count * limit', 'len(path)']
+SHADOW_TEXT_EXPRS = ['path', 'count', "'%s:%s' % (path, count)", 'path.upper()', 'limit']
+
+
 def make_module(name, globals_spec, extra=None):
     """a fresh module with its own globals: helpers + the case's globals.  name must be unique-ish."""
     mod = types.ModuleType(name)
